@@ -33,6 +33,10 @@ pub fn generic_case<N: Subject + datafusion_common::tree_node::TreeNode>(rep: &R
 pub fn run_implementors(rep: &Report, args: &Args, n: u64) {
     let seed = args.seed;
     let stage = if args.stage == "miri" { 1 } else { 0 };
+    if let Err(p) = vcommon::par::guard(|| logical::fixed_cases(rep)) {
+        rep.skip("harness panic in fixed cases");
+        rep.sample(vcommon::json!({"harness_panic": p, "where": "fixed cases"}));
+    }
     vcommon::par::run(args.workers, 0..n, |i| {
         let mut rng = Rng::derive(seed, &[42, stage, 3, i]);
         let pseed = rng.next_u64();
